@@ -240,7 +240,7 @@ impl Bus {
     }
 
     pub fn set_nvram(&mut self, nvram: &[u8]) {
-        for (i, b) in nvram.iter().enumerate() {
+        for (i, b) in nvram.iter().enumerate().take(NVRAM_SIZE) {
             self.bbram[i] = *b;
         }
     }
